@@ -36,6 +36,7 @@ LEVEL_TEXT = ('Bounded-exhaustive in both directions: every small tree with ever
               'proof - in data, structure, committed hashes, root type, expected hash, claimed account state, address, block id and root list - must be refused.')
 LEVEL_NOTE = 'trusted: mc/ref/cell.py (prune / mproof / mupdate constructors and level-aware hashes, validated by C02), mc/ref/boc.py, mc/ref/hashmap.py, mc/ref/bits.py'
 TECHNIQUE = 'small-scope exhaustive enumeration of trees and prune sets plus exhaustive single-fault mutation of every accepted proof, against reference proof constructors'
+RULE += " Account dictionaries carry real aggregates: every fork extra (and the root extra) is the sum of its subtree's DepthBalanceInfo, so forks above an account with extra currencies own a dictionary reference; claimed 'empty cell' / None for an account that exists behind a pruned branch must be rejected."
 ASSUMPTIONS = ['proofs are built by the reference model (prune = replace a subtree by a pruned-branch cell carrying its level-wise hashes and depths)']
 NOT_ASSERTED = ['the depth field stored in the Merkle-proof ROOT cell (it is not committed by any hash)', 'check_shard_proof (not named by the property; needs a full masterchain state)',
                 'mutations that leave the proof valid (e.g. swapping two identical references) are not generated']
